@@ -856,6 +856,279 @@ theorem reimport_value (env : Env) (s : Schema) (hw : wf s = true) (cur : Elem) 
   obtain ⟨b, hb⟩ := reimport env s hw cur hc x e h hl
   exact ⟨e, b, hb, rfl⟩
 
+/-! ### the element's history
+
+The `cur` of `reimport` is any shaped state.  What builds such states: the steps of
+`Flatland.C03.Step` (a `set()` anywhere in the tree, item assignment anywhere in the tree), from a
+fresh element or from any shaped state; states that come from elsewhere (`set_flat()`) are checked
+with the function `shapedB`. -/
+
+theorem wfL_mem (fs : List Schema) (h : wfL fs = true) (f : Schema) (hf : f ∈ fs) : wf f = true := by
+  induction fs with
+  | nil => simp at hf
+  | cons g gs ih =>
+    simp only [wfL, Bool.and_eq_true] at h
+    rcases List.mem_cons.mp hf with rfl | hin
+    · exact h.1
+    · exact ih h.2 hin
+
+theorem keysOkB_iff (B ms : List (Str × Elem)) : keysOkB B ms = true ↔ KeysOk B ms := by
+  simp [keysOkB, KeysOk]
+
+mutual
+theorem shapedB_iff (env : Env) : ∀ (s : Schema) (e : Elem), shapedB env s e = true ↔ Shaped env s e
+  | .leaf .., .leaf .. => by simp [shapedB, Shaped]
+  | .leaf .., .dict _ => by simp [shapedB, Shaped]
+  | .leaf .., .seq _ => by simp [shapedB, Shaped]
+  | .dict .., .leaf .. => by simp [shapedB, Shaped]
+  | .dict .., .seq _ => by simp [shapedB, Shaped]
+  | .seq .., .leaf .. => by simp [shapedB, Shaped]
+  | .seq .., .dict _ => by simp [shapedB, Shaped]
+  | .dict _ _ mode _ fields, .dict ms => by
+    simp only [shapedB, Shaped, Bool.and_eq_true, keysOkB_iff, shapedMsB_iff env fields ms]
+  | .seq _ _ member, .seq ms => by
+    simp only [shapedB, Shaped, shapedLB_iff env member ms]
+theorem shapedMsB_iff (env : Env) (fields : List Schema) :
+    ∀ ms : List (Str × Elem), shapedMsB env fields ms = true ↔ ShapedMs env fields ms
+  | [] => by simp [shapedMsB, ShapedMs]
+  | (k, m) :: rest => by
+    simp only [shapedMsB, ShapedMs, Bool.and_eq_true, shapedMsB_iff env fields rest]
+    cases hf : findField k fields with
+    | none => simp
+    | some f => simp only [shapedB_iff env f m]
+theorem shapedLB_iff (env : Env) (member : Schema) :
+    ∀ ms : List Elem, shapedLB env member ms = true ↔ ShapedL env member ms
+  | [] => by simp [shapedLB, ShapedL]
+  | m :: rest => by
+    simp only [shapedLB, ShapedL, Bool.and_eq_true, shapedB_iff env member m, shapedLB_iff env member rest]
+end
+
+theorem shaped_replace (env : Env) (fields : List Schema) (B ms : List (Str × Elem)) (k : Str)
+    (f : Schema) (m' : Elem) (hf : findField k fields = some f) (hm' : Shaped env f m')
+    (hk : KeysOk B ms) (hs : ShapedMs env fields ms) :
+    KeysOk B (replace k m' ms) ∧ ShapedMs env fields (replace k m' ms) := by
+  refine ⟨⟨by rw [replace_keys]; exact hk.1, by rw [replace_keys]; exact hk.2⟩, ?_⟩
+  apply (shapedMs_iff env fields _).mpr
+  intro p hp
+  rcases mem_replace k m' ms p hp with rfl | hp
+  · exact ⟨f, hf, hm'⟩
+  · exact (shapedMs_iff env fields ms).mp hs p hp
+
+theorem shapedL_set (env : Env) (member : Schema) (ms : List Elem) (i : Nat) (m' : Elem)
+    (hm' : Shaped env member m') (hs : ShapedL env member ms) : ShapedL env member (ms.set i m') := by
+  apply (shapedL_iff env member _).mpr
+  intro m hm
+  rcases List.mem_or_eq_of_mem_set hm with h | h
+  · exact (shapedL_iff env member ms).mp hs m h
+  · rw [h]; exact hm'
+
+/-- an operation that keeps every member shaped keeps the whole element shaped, wherever in the
+    tree it is applied -/
+theorem shaped_updateAt (env : Env) (op : Schema → Elem → Except StepRaise (Elem × Bool))
+    (hop : ∀ s, wf s = true → ∀ cur e fl, Shaped env s cur → op s cur = .ok (e, fl) → Shaped env s e) :
+    ∀ (path : List Key) (s : Schema), wf s = true → ∀ (cur e : Elem) (fl : Bool), Shaped env s cur →
+      updateAt op s cur path = .ok (e, fl) → Shaped env s e := by
+  intro path
+  induction path with
+  | nil =>
+    intro s hw cur e fl hc h
+    simp only [updateAt] at h
+    exact hop s hw cur e fl hc h
+  | cons key rest ih =>
+    intro s hw cur e fl hc h
+    cases s with
+    | leaf n o k => simp [updateAt] at h
+    | dict n o mode policy fields =>
+      cases cur with
+      | leaf v u p => simp [Shaped] at hc
+      | seq ms => simp [Shaped] at hc
+      | dict ms =>
+        cases key with
+        | idx i => simp [updateAt] at h
+        | name k =>
+          simp only [updateAt] at h
+          cases hl : lookup k ms with
+          | none => simp [hl] at h
+          | some m =>
+            cases hf : findField k fields with
+            | none => simp [hl, hf] at h
+            | some f =>
+              simp only [hl, hf] at h
+              cases hu : updateAt op f m rest with
+              | error r => simp [hu] at h
+              | ok mf =>
+                obtain ⟨m', fl'⟩ := mf
+                simp only [hu, Except.ok.injEq, Prod.mk.injEq] at h
+                simp only [wf, Bool.and_eq_true] at hw
+                have hwf : wf f = true := wfL_mem fields hw.1.1.1 f (findField_mem fields k f hf).1
+                simp only [Shaped] at hc
+                obtain ⟨f', hf', hsm⟩ := (shapedMs_iff env fields ms).mp hc.2 (k, m) (lookup_mem k ms m hl)
+                simp only [hf, Option.some.injEq] at hf'
+                subst hf'
+                have hm' := ih f hwf m m' fl' hsm hu
+                rw [← h.1]
+                simp only [Shaped]
+                exact shaped_replace env fields _ ms k f m' hf hm' hc.1 hc.2
+    | seq n o member =>
+      cases cur with
+      | leaf v u p => simp [Shaped] at hc
+      | dict ms => simp [Shaped] at hc
+      | seq ms =>
+        cases key with
+        | name k => simp [updateAt] at h
+        | idx i =>
+          simp only [updateAt] at h
+          cases hg : ms[i]? with
+          | none => simp [hg] at h
+          | some m =>
+            simp only [hg] at h
+            cases hu : updateAt op member m rest with
+            | error r => simp [hu] at h
+            | ok mf =>
+              obtain ⟨m', fl'⟩ := mf
+              simp only [hu, Except.ok.injEq, Prod.mk.injEq] at h
+              simp only [wf] at hw
+              simp only [Shaped] at hc
+              have hsm := (shapedL_iff env member ms).mp hc m (List.mem_of_getElem? hg)
+              have hm' := ih member hw m m' fl' hsm hu
+              rw [← h.1]
+              simp only [Shaped]
+              exact shapedL_set env member ms i m' hm' hc
+
+/-- `el.set(x)` through the lifted exception type -/
+theorem shaped_liftSet (env : Env) (x : Native) (s : Schema) (hw : wf s = true) (cur e : Elem) (fl : Bool)
+    (hc : Shaped env s cur) (h : liftSet (setNative env s cur x) = .ok (e, fl)) : Shaped env s e := by
+  cases hr : setNative env s cur x with
+  | error r => simp [liftSet, hr] at h
+  | ok p =>
+    simp only [liftSet, hr, Except.ok.injEq] at h
+    subst h
+    exact shaped_set env s hw cur x e fl hc hr
+
+/-- item assignment leaves a shaped container shaped -/
+theorem shaped_itemAssign (env : Env) (key : Key) (fresh : Bool) (x : Native) (s : Schema)
+    (hw : wf s = true) (cur e : Elem) (fl : Bool) (hc : Shaped env s cur)
+    (h : itemAssign env key fresh x s cur = .ok (e, fl)) : Shaped env s e := by
+  cases s with
+  | leaf n o k => cases cur <;> simp [itemAssign] at h
+  | dict n o mode policy fields =>
+    cases cur with
+    | leaf v u p => simp [Shaped] at hc
+    | seq ms => simp [Shaped] at hc
+    | dict ms =>
+      cases key with
+      | idx i => simp [itemAssign] at h
+      | name k =>
+        simp only [itemAssign] at h
+        split at h
+        · simp at h
+        · cases hsp : setPairs env fields ms [(Native.text k, x)] with
+          | error r => simp [hsp] at h
+          | ok msf =>
+            obtain ⟨ms', f'⟩ := msf
+            simp only [hsp, Except.ok.injEq, Prod.mk.injEq] at h
+            simp only [wf, Bool.and_eq_true] at hw
+            obtain ⟨⟨⟨hwl, _⟩, _⟩, _⟩ := hw
+            simp only [Shaped] at hc
+            have hg0 : Inv fields (Shaped env) (blankMs env mode fields) ms :=
+              ⟨hc.1, (shapedMs_iff env fields ms).mp hc.2⟩
+            have hg := inv_setPairs env fields (Shaped env) _
+              (fun key f hf => shaped_blankL env fields hwl f (findField_mem fields key f hf).1)
+              (fun key f hf => shaped_setL env fields hwl f (findField_mem fields key f hf).1)
+              _ ms ms' f' hg0 hsp
+            rw [← h.1]
+            simp only [Shaped]
+            exact ⟨hg.keys, (shapedMs_iff env fields _).mpr hg.mem⟩
+  | seq n o member =>
+    cases cur with
+    | leaf v u p => simp [Shaped] at hc
+    | dict ms => simp [Shaped] at hc
+    | seq ms =>
+      simp only [wf] at hw
+      simp only [Shaped] at hc
+      cases key with
+      | name k => simp [itemAssign] at h
+      | idx i =>
+        simp only [itemAssign] at h
+        split at h
+        · cases hs : setNative env member (blank env member) x with
+          | error r => simp [hs] at h
+          | ok mf =>
+            obtain ⟨m, f'⟩ := mf
+            simp only [hs] at h
+            split at h
+            · simp only [Except.ok.injEq, Prod.mk.injEq] at h
+              rw [← h.1]
+              simp only [Shaped]
+              exact shapedL_set env member ms i m
+                (shaped_set env member hw _ x m f' (shaped_blank env member hw) hs) hc
+            · simp at h
+        · cases hg : ms[i]? with
+          | none => simp [hg] at h
+          | some m =>
+            simp only [hg] at h
+            cases hs : setNative env member m x with
+            | error r => simp [hs] at h
+            | ok mf =>
+              obtain ⟨m', f'⟩ := mf
+              simp only [hs, Except.ok.injEq, Prod.mk.injEq] at h
+              rw [← h.1]
+              simp only [Shaped]
+              have hsm := (shapedL_iff env member ms).mp hc m (List.mem_of_getElem? hg)
+              exact shapedL_set env member ms i m' (shaped_set env member hw m x m' f' hsm hs) hc
+
+/-- every step of a history leaves a shaped element shaped -/
+theorem shaped_applyStep (env : Env) (s : Schema) (hw : wf s = true) (cur : Elem) (st : Step)
+    (e : Elem) (fl : Bool) (hc : Shaped env s cur) (h : applyStep env s cur st = .ok (e, fl)) :
+    Shaped env s e := by
+  cases st with
+  | set path x =>
+    exact shaped_updateAt env _ (fun s' hw' c e' fl' hc' h' => shaped_liftSet env x s' hw' c e' fl' hc' h')
+      path s hw cur e fl hc h
+  | setItem path key fresh x =>
+    exact shaped_updateAt env _ (fun s' hw' c e' fl' hc' h' => shaped_itemAssign env key fresh x s' hw' c e' fl' hc' h')
+      path s hw cur e fl hc h
+
+/-- … hence so does a whole history -/
+theorem shaped_history (env : Env) (s : Schema) (hw : wf s = true) :
+    ∀ (steps : List Step) (cur e : Elem), Shaped env s cur → runSteps env s cur steps = .ok e →
+      Shaped env s e := by
+  intro steps
+  induction steps with
+  | nil =>
+    intro cur e hc h
+    simp only [runSteps, Except.ok.injEq] at h
+    rw [← h]; exact hc
+  | cons st rest ih =>
+    intro cur e hc h
+    simp only [runSteps] at h
+    cases ha : applyStep env s cur st with
+    | error r => simp [ha] at h
+    | ok ef =>
+      obtain ⟨e1, f1⟩ := ef
+      simp only [ha] at h
+      exact ih e1 e (shaped_applyStep env s hw cur st e1 f1 hc ha) h
+
+/-- **C03 after any history.**  The element was built fresh and then went through any sequence
+    of `set()` calls and item assignments anywhere in its tree (none of which raised); if the
+    `set(x)` that follows reports True, its exported value rebuilds it on a fresh element. -/
+theorem reimport_history (env : Env) (s : Schema) (hw : wf s = true) (steps : List Step) (cur : Elem)
+    (hr : runSteps env s (blank env s) steps = .ok cur)
+    (x : Native) (e : Elem) (h : setNative env s cur x = .ok (e, true))
+    (hl : leafStable env false s e = true) :
+    ∃ b, setNative env s (blank env s) (value e) = .ok (e, b) :=
+  reimport env s hw cur (shaped_history env s hw steps _ cur (shaped_blank env s hw) hr) x e h hl
+
+/-- the same from a state that was observed (after `set_flat()`, after a step that raised) and
+    passed the check `shapedB`, followed by any further history -/
+theorem reimport_observed (env : Env) (s : Schema) (hw : wf s = true) (obs : Elem)
+    (ho : shapedB env s obs = true) (steps : List Step) (cur : Elem)
+    (hr : runSteps env s obs steps = .ok cur)
+    (x : Native) (e : Elem) (h : setNative env s cur x = .ok (e, true))
+    (hl : leafStable env false s e = true) :
+    ∃ b, setNative env s (blank env s) (value e) = .ok (e, b) :=
+  reimport env s hw cur (shaped_history env s hw steps _ cur ((shapedB_iff env s obs).mp ho) hr) x e h hl
+
 /-! ### non-vacuity -/
 
 /-- a toy leaf table: texts are kept as they are, None gives an empty leaf; anything else is
@@ -933,6 +1206,75 @@ example : setNative exEnv dupSchema (blank exEnv dupSchema)
     = .ok (.dict [("m".toList, .dict [("a".toList, .leaf (.text "x".toList) "x".toList [])])], false) := by
   simp [dupSchema, setNative, toPairs, iterate, unpackPairs, policyRaise, fieldNames, isField,
     hashable, Schema.name, blank, blankMs, blankFields, setPairs, setOne, lookup, replace, exEnv]
+
+/-! ### an element with a history: a stale, unadaptable text under a partial `set()` -/
+
+/-- an Integer-like leaf table: numbers (atoms) are taken, None empties the leaf, a text that is no
+    number is kept as the text with the value None and the flag False -/
+def intEnv : Env :=
+  { adapt := fun _ _ x => match x with
+      | .atom d => (true, .atom d, d, [])
+      | .none => (true, .none, [], [])
+      | .text t => (false, .none, t, [])
+      | _ => (false, .none, [], [])
+    blankLeaf := fun _ => (.none, [], []) }
+
+/-- `Dict.named('p').of(Integer.named('x'), Integer.named('y'))`, default policy -/
+def pointSchema : Schema :=
+  .dict (some "p".toList) false .dense .subset
+    [.leaf (some "x".toList) false 0, .leaf (some "y".toList) false 0]
+
+/-- the point after `el['x'].set('abc'); el['y'] = 3` (or after `set_flat([('p_x', 'abc'),
+    ('p_y', '3')])`): `x` holds the value None and the text 'abc' -/
+def staleCur : Elem :=
+  .dict [("x".toList, .leaf .none "abc".toList []), ("y".toList, .leaf (.atom "3".toList) "3".toList [])]
+
+def afterPartial : Elem :=
+  .dict [("x".toList, .leaf .none [] []), ("y".toList, .leaf (.atom "2".toList) "2".toList [])]
+
+/-- that state is what a member's own `set()` and an item assignment build from a fresh point … -/
+example : runSteps intEnv pointSchema (blank intEnv pointSchema)
+      [.set [.name "x".toList] (.text "abc".toList), .setItem [] (.name "y".toList) false (.atom "3".toList)]
+    = .ok staleCur := by
+  simp [runSteps, applyStep, updateAt, itemAssign, liftSet, pointSchema, staleCur, setNative, blank, blankFields,
+    Schema.name, lookup, findField, replace, setPairs, setOne, hashable, intEnv]
+
+/-- … it is not the fresh state, it is shaped, and the partial `set({'y': 2})` under the 'subset'
+    policy reports True on it: `Dict.set` resets the members first, so the stale text 'abc' of `x`
+    is gone from the result (a member that kept it would show in `.u`, `==` and `flatten()`, not
+    in `.value`) -/
+example : staleCur ≠ blank intEnv pointSchema
+    ∧ shapedB intEnv pointSchema staleCur = true
+    ∧ setNative intEnv pointSchema staleCur (.dict [(.text "y".toList, .atom "2".toList)]) = .ok (afterPartial, true)
+    ∧ wf pointSchema = true ∧ leafStable intEnv false pointSchema afterPartial = true := by
+  refine ⟨by simp [staleCur, pointSchema, blank, blankFields, intEnv], ?_, ?_, by decide, ?_⟩
+  · simp [pointSchema, staleCur, shapedB, shapedMsB, keysOkB, blankMs, blankFields, findField, Schema.name]
+  · simp [pointSchema, staleCur, afterPartial, setNative, toPairs, policyRaise, fieldNames, isField, hashable,
+      Schema.name, blankMs, blankFields, blank, setPairs, setOne, lookup, replace, intEnv]
+  · simp [pointSchema, afterPartial, leafStable, leafStableMs, findField, Schema.name, intEnv]
+
+/-- so `reimport` speaks about exactly this situation: the exported value `{'x': None, 'y': 2}`
+    rebuilds the element on a fresh point -/
+example : ∃ b, setNative intEnv pointSchema (blank intEnv pointSchema) (value afterPartial) = .ok (afterPartial, b) := by
+  have hs : Shaped intEnv pointSchema staleCur := by
+    apply (shapedB_iff intEnv pointSchema staleCur).mp
+    simp [pointSchema, staleCur, shapedB, shapedMsB, keysOkB, blankMs, blankFields, findField, Schema.name]
+  refine reimport intEnv pointSchema (by decide) staleCur hs (.dict [(.text "y".toList, .atom "2".toList)]) afterPartial ?_ ?_
+  · simp [pointSchema, staleCur, afterPartial, setNative, toPairs, policyRaise, fieldNames, isField, hashable,
+      Schema.name, blankMs, blankFields, blank, setPairs, setOne, lookup, replace, intEnv]
+  · simp [pointSchema, afterPartial, leafStable, leafStableMs, findField, Schema.name, intEnv]
+
+/-- the counter-model of the defect "skip `_reset()` on an element whose own `set()` was never
+    called": the member `x` is kept, the exported value is the same `{'x': None, 'y': 2}`, and the
+    re-import builds a different element (text '' instead of 'abc') -/
+example :
+    let kept : Elem := .dict [("x".toList, .leaf .none "abc".toList []), ("y".toList, .leaf (.atom "2".toList) "2".toList [])]
+    value kept = value afterPartial ∧
+      setNative intEnv pointSchema (blank intEnv pointSchema) (value kept) = .ok (afterPartial, true) ∧
+      kept ≠ afterPartial := by
+  refine ⟨by simp [value, value.valueMembers, afterPartial], ?_, by simp [afterPartial]⟩
+  simp [pointSchema, afterPartial, value, value.valueMembers, setNative, toPairs, policyRaise, fieldNames, isField,
+    hashable, Schema.name, blankMs, blankFields, blank, setPairs, setOne, lookup, replace, intEnv]
 
 /-! ### the need for the leaf hypothesis -/
 
